@@ -46,6 +46,8 @@
 #include <memory>
 #include <netinet/in.h>
 #include <set>
+#include <fcntl.h>
+#include <poll.h>
 #include <sys/socket.h>
 #include <unistd.h>
 
@@ -95,8 +97,11 @@ struct World
   std::atomic<bool> stopReturned{false};
   std::atomic<bool> cbDropArmed{false};
   std::atomic<bool> cbStopArmed{false};
+  std::atomic<std::atomic<bool> *> cbWait{nullptr};
   Transport *rawForCb = nullptr; // valid while some owner exists (cbstop programs keep main's reference until the end)
   std::atomic<int> port{0};
+  std::atomic<int> holePort{0};  // a loopback listener whose accept queue is full and never drained: SYNs to it are dropped
+  std::vector<int> holeFds;
   std::atomic<bool> running{false};
   void lock()
   {
@@ -179,6 +184,10 @@ static void installCallbacks(World *w, Transport *t)
     {
       bool as = w->stopReturned.load(std::memory_order_acquire);
       w->tr.add(vf::Ev("Data").i("s", (long long)s).i("n", (long long)d.size()).b("as", as));
+      // cbwait:<flag>: a slow application callback - the I/O thread stays in here until the flag is set
+      std::atomic<bool> *hold = w->cbWait.exchange(nullptr);
+      if (hold)
+        while (!hold->load()) sched_yield();
       maybeDrop();
     });
   t->onClose(
@@ -252,7 +261,7 @@ static void appOps(World *w, const ThreadProg &tp)
       w->tr.add(vf::Ev("Peer").i("k", k).b("ok", rc == 0));
       continue;
     }
-    if (op == "psend" || op == "pclose")
+    if (op == "psend" || op == "pclose" || op == "preset")
     {
       int k = atoi(o.f[1].c_str());
       w->lock();
@@ -260,6 +269,17 @@ static void appOps(World *w, const ThreadProg &tp)
       if (op == "pclose") w->peers.erase(k);
       w->unlock();
       if (fd < 0) continue;
+      if (op == "preset")
+      {
+        // the peer resets the connection; its descriptor NUMBER stays taken (so that the next socket the engine opens gets the
+        // number the engine itself has just released, not this one)
+        linger lg{1, 0};
+        setsockopt(fd, SOL_SOCKET, SO_LINGER, &lg, sizeof lg);
+        int nul = open("/dev/null", O_RDONLY);
+        dup2(nul, fd);
+        close(nul);
+        continue;
+      }
       if (op == "psend")
       {
         std::string buf((size_t)atoi(o.f[2].c_str()), 'p');
@@ -267,6 +287,69 @@ static void appOps(World *w, const ThreadProg &tp)
       }
       else
         close(fd);
+      continue;
+    }
+    if (op == "hole")
+    {
+      // a black hole on loopback: listen(fd, 0), fill the accept queue, never accept - a further connect stays in SYN_SENT
+      int lfd = socket(AF_INET, SOCK_STREAM, 0);
+      sockaddr_in sa{};
+      sa.sin_family = AF_INET;
+      inet_pton(AF_INET, "127.0.0.1", &sa.sin_addr);
+      bool ok = bind(lfd, (sockaddr *)&sa, sizeof sa) == 0 && listen(lfd, 0) == 0;
+      socklen_t sl = sizeof sa;
+      getsockname(lfd, (sockaddr *)&sa, &sl);
+      w->holeFds.push_back(lfd);
+      bool hangs = false;
+      for (int i = 0; ok && i < 8 && !hangs; ++i)
+      {
+        int c = socket(AF_INET, SOCK_STREAM | SOCK_NONBLOCK, 0);
+        w->holeFds.push_back(c);
+        int rc = connect(c, (sockaddr *)&sa, sizeof sa);
+        if (rc != 0 && errno == EINPROGRESS)
+        {
+          pollfd pf{c, POLLOUT, 0};
+          hangs = ::poll(&pf, 1, 60) == 0; // (real time: loopback completes a handshake in microseconds)
+        }
+      }
+      if (ok && hangs) w->holePort.store(ntohs(sa.sin_port));
+      w->tr.add(vf::Ev("Hole").b("ok", ok && hangs));
+      continue;
+    }
+    if (op == "pdrain")
+    {
+      // the raw peer reads everything that is there (the session's socket becomes writable again)
+      int k = atoi(o.f[1].c_str());
+      w->lock();
+      int fd = w->peers.count(k) ? w->peers[k] : -1;
+      w->unlock();
+      if (fd < 0) continue;
+      std::vector<char> buf(1 << 20);
+      long long tot = 0;
+      for (int idle = 0; idle < 3;)
+      {
+        ssize_t n = recv(fd, buf.data(), buf.size(), MSG_DONTWAIT);
+        if (n > 0)
+        {
+          tot += n;
+          idle = 0;
+        }
+        else
+        {
+          ++idle;
+        }
+      }
+      w->tr.add(vf::Ev("PDrain").i("k", k).i("n", tot));
+      continue;
+    }
+    if (op == "sleep")
+    {
+      std::this_thread::sleep_for(std::chrono::milliseconds(atoi(o.f[1].c_str()))); // virtual time
+      continue;
+    }
+    if (op == "spin")
+    {
+      for (int i = 0, n = atoi(o.f[1].c_str()); i < n; ++i) sched_yield();
       continue;
     }
     if (op == "gauge")
@@ -287,6 +370,11 @@ static void appOps(World *w, const ThreadProg &tp)
     if (op == "cbdrop")
     {
       w->cbDropArmed.store(true);
+      continue;
+    }
+    if (op == "cbwait")
+    {
+      w->cbWait.store(&w->flag(o.f[1]));
       continue;
     }
     if (op == "cbstop")
@@ -331,19 +419,26 @@ static void appOps(World *w, const ThreadProg &tp)
     {
       // connectto:<ip>: an address the kernel refuses inside the connect() call itself (multicast, broadcast, no route)
       w->tr.add(vf::Ev("ConnCall").str("t", tp.name));
-      auto r = op == "connect" ? t->connect("127.0.0.1", (uint16_t)w->port.load(), TlsMode::None) : t->connect(o.f[1], 9, TlsMode::None);
+      // connectto:hole: the black hole (op "hole") - the handshake can never complete
+      bool hole = op == "connectto" && o.f[1] == "hole";
+      auto r = op == "connect" ? t->connect("127.0.0.1", (uint16_t)w->port.load(), TlsMode::None)
+               : hole          ? t->connect("127.0.0.1", (uint16_t)w->holePort.load(), TlsMode::None)
+                               : t->connect(o.f[1], 9, TlsMode::None);
       if (r.isOk()) mine = r.value();
-      w->tr.add(vf::Ev("ConnRet").str("t", tp.name).b("ok", r.isOk()).i("s", r.isOk() ? (long long)r.value() : 0).b("af", af));
+      w->tr.add(vf::Ev("ConnRet").str("t", tp.name).b("ok", r.isOk()).i("s", r.isOk() ? (long long)r.value() : 0).b("af", af).b("nc", w->isTcp() && hole && w->holePort.load() != 0));
     }
     else if (op == "csync")
     {
       // connectSync to the first listener, or (csync:<ms>:dead) to a loopback port nobody listens on
       long to = o.f.size() > 1 ? atol(o.f[1].c_str()) : 100000;
       bool dead = o.f.size() > 2 && o.f[2] == "dead";
+      bool hole = o.f.size() > 2 && o.f[2] == "hole" && w->holePort.load() != 0;
       w->tr.add(vf::Ev("SyncConnCall").str("t", tp.name).i("to", to));
-      auto r = t->connectSync("127.0.0.1", dead ? (uint16_t)1 : (uint16_t)w->port.load(), TlsMode::None, std::chrono::milliseconds(to));
+      auto r = t->connectSync("127.0.0.1", dead ? (uint16_t)1 : hole ? (uint16_t)w->holePort.load() : (uint16_t)w->port.load(), TlsMode::None,
+                              std::chrono::milliseconds(to));
       if (r.isOk()) mine = r.value();
-      w->tr.add(vf::Ev("SyncConnRet").str("t", tp.name).b("ok", r.isOk()).i("s", r.isOk() ? (long long)r.value() : 0).b("af", af));
+      // nc: no handshake with this target can complete (TCP only: nobody listens / SYNs are dropped; a UDP connect has no handshake)
+      w->tr.add(vf::Ev("SyncConnRet").str("t", tp.name).b("ok", r.isOk()).i("s", r.isOk() ? (long long)r.value() : 0).b("af", af).b("nc", w->isTcp() && (dead || hole)));
     }
     else if (op == "mode")
     {
@@ -373,6 +468,15 @@ static void appOps(World *w, const ThreadProg &tp)
       w->tr.add(vf::Ev("SendCall").str("t", tp.name).i("s", (long long)s));
       bool ok = t->send(s, iora::core::BufferView(reinterpret_cast<const std::uint8_t *>(buf.data()), buf.size()));
       w->tr.add(vf::Ev("SendRet").str("t", tp.name).i("s", (long long)s).b("ok", ok).b("af", af));
+    }
+    else if (op == "addr")
+    {
+      // address queries: public operations that READ the engine's session map on an application thread
+      SessionId s = sidOf(o.f[1]);
+      if (!s) continue;
+      auto ra = t->getRemoteAddress(s);
+      auto la = t->getLocalAddress(s);
+      w->tr.add(vf::Ev("Addr").str("t", tp.name).i("s", (long long)s).b("known", ra.port != 0 || la.port != 0));
     }
     else if (op == "close")
     {
@@ -472,6 +576,8 @@ static std::string runOne(const std::string &proto, const std::vector<ThreadProg
               w->lock();
               for (auto &kv : w->peers) close(kv.second);
               w->peers.clear();
+              for (int fd : w->holeFds) close(fd);
+              w->holeFds.clear();
               w->unlock();
             });
   vf::Result r = vf::run();
